@@ -4,6 +4,7 @@ use super::{
 };
 use error_set::ErrContext;
 use iggy::error::IggyError;
+#[cfg(not(kani))]
 use std::{
     fs::{File, OpenOptions},
     io::ErrorKind,
@@ -13,7 +14,20 @@ use std::{
         Arc,
     },
 };
+#[cfg(kani)]
+use iggy::verif_model::fs::stdfs::{File, FileExt, OpenOptions};
+#[cfg(kani)]
+use std::{
+    io::ErrorKind,
+    sync::{
+        atomic::{AtomicU64, Ordering},
+        Arc,
+    },
+};
+#[cfg(not(kani))]
 use tokio::task::spawn_blocking;
+#[cfg(kani)]
+use iggy::verif_model::fs::task::spawn_blocking;
 use tracing::{error, trace};
 
 /// A dedicated struct for reading from the index file.
